@@ -116,6 +116,18 @@ func (c *Encoder) encodeStruct(v reflect.Value) {
 
 	vtyp := v.Type()
 
+	// few fields could share single flag bit (group of conditional fields). group is present, if at least
+	// one of its fields is not zero, so firstly we need to collect the whole flag value
+	for i := 0; i < v.NumField(); i++ {
+		info, err := parseTag(vtyp.Field(i).Tag)
+		if err != nil || info == nil || info.ignore {
+			continue // errors are reported by the next loop
+		}
+		if !v.Field(i).IsZero() {
+			flag |= 1 << info.index
+		}
+	}
+
 	for i := 0; i < v.NumField(); i++ {
 		// THIS PART is appending to object meta value, that actually don't writing in real encodeValue
 		if hasFlagsField && flagIndex == i {
@@ -143,10 +155,9 @@ func (c *Encoder) encodeStruct(v reflect.Value) {
 			return
 		}
 
-		fieldVal := v.Field(i)
-		if !fieldVal.IsZero() {
-			// тег есть, это 100% опциональное поле
-			flag |= 1 << info.index
+		if flag&(1<<info.index) != 0 {
+			// тег есть, это 100% опциональное поле. if group is present, all of its fields must be
+			// written, even zero valued
 			if info.encodedInBitflag {
 				continue
 			}
